@@ -3072,6 +3072,8 @@ namespace bloch::compiler {
         bool savedDtor = m_inDestructor;
         auto savedMethod = m_currentMethod;
         bool savedOverride = m_currentMethodIsOverride;
+        auto savedReturn = m_currentReturn;
+        bool savedFoundReturn = m_foundReturn;
         auto restoreState = makeScopeExit([&] {
             m_inStaticContext = savedStatic;
             m_currentClass = std::move(savedClass);
@@ -3079,12 +3081,17 @@ namespace bloch::compiler {
             m_inDestructor = savedDtor;
             m_currentMethod = std::move(savedMethod);
             m_currentMethodIsOverride = savedOverride;
+            m_currentReturn = std::move(savedReturn);
+            m_foundReturn = savedFoundReturn;
         });
         m_inStaticContext = false;
         m_inConstructor = false;
         m_inDestructor = true;
         m_currentMethod = "<destructor>";
         m_currentMethodIsOverride = false;
+        // a destructor returns nothing: 'return;' is fine, 'return value;' is not
+        m_currentReturn = combine(ValueType::Void, "");
+        m_foundReturn = false;
         ScopeGuard scope(*this);
         if (!savedClass.empty())
             declare("this", true, combine(ValueType::Unknown, savedClass));
